@@ -486,6 +486,13 @@ package internal
 //@   implements ValidationResponseHandler.HandleValidationResponse
 //@   requires r != nil && r.l != nil && r.clock != nil && r.ci != nil && r.ce != nil && r.siep != nil && r.rs != nil
 
+//@ func hopByHopHeaders
+//@   property C05 C08
+//@   nosafety
+//@   pure
+//@   fresh
+//@   ensures result != nil                                   # name: non-nil
+
 //@ func updateStoredHeaders
 //@   property C08
 //@   requires storedResp != nil && storedResp.Header != nil && resp != nil
